@@ -193,7 +193,7 @@ def Prog.lookup (p : Prog) (name : String) : Option Nat :=
 /-! ## error numbers and exit levels (numeric values are not needed, only identity) -/
 
 inductive Err where
-  | enoerr | eperm | estack | edivby0 | eargtm | efunnf | eionmnf | enotref | enonscatopos
+  | enoerr | eperm | estack | edivby0 | eargtm | efunnf | eionmnf | enotref | enonscatopos | enoent
   deriving DecidableEq, Repr, Inhabited
 
 def xlNone : Nat := 0
@@ -359,8 +359,10 @@ def stepSimple (c : Ctx) : Action → Bool × Ctx
     (true, { c1 with console := c1.console ++ [c1.heap.text v] }.refdown v)
   | .printf k e =>
     let (c1, v) := evalOwned c e
+    -- opening the stream looks its name up in the context's I/O attribute table (std.c get_ioattr); the miss
+    -- leaves HAWK_ENOENT in the context's sticky error number (the table belongs to the context since 0a2fd78)
     let c2 : Ctx := if c1.rio.contains k then c1
-      else { c1 with rio := k :: c1.rio, files := fun j => if j = k then some [] else c1.files j }
+      else { c1 with rio := k :: c1.rio, files := fun j => if j = k then some [] else c1.files j, err := .enoent }
     let line := c2.heap.text v
     let c3 : Ctx := { c2 with files := fun j => if j = k then some ((c2.files k).getD [] ++ [line]) else c2.files j }
     (true, c3.refdown v)
